@@ -25,6 +25,13 @@ func init() {
 
 type vReqVal struct{ tag int }
 
+// vSvc is mapped at application scope by its concrete type and asked for by
+// handlers through the interface vSvcI (resolution by implementor scan).
+type vSvcI interface{ Name() string }
+type vSvc struct{ name string }
+
+func (s *vSvc) Name() string { return s.name }
+
 var vApp *Flame
 
 func VH_C05_setup() {
@@ -32,8 +39,9 @@ func VH_C05_setup() {
 	f.Use(Recovery())
 	f.Use(func(c Context) { c.Map(&vReqVal{tag: len(c.Request().URL.Path)}) }) // request-scoped Map
 	f.Use(Renderer())
-	h := func(c Context, v *vReqVal, r Render) string {
-		out := c.Param("id") + c.Param("rest") + c.Param("opt") + c.Param("name")
+	f.Map(&vSvc{name: "svc"})
+	h := func(c Context, v *vReqVal, r Render, svc vSvcI) string {
+		out := svc.Name() + c.Param("id") + c.Param("rest") + c.Param("opt") + c.Param("name")
 		sum := 0
 		for k, val := range c.Params() { // order-insensitive use of the whole map
 			sum += len(k)*7 + len(val)
